@@ -91,6 +91,7 @@ func c13CloseRaceCase(c *Ctx) *Result {
 		env.Close()
 		res.Obs["close_write_races"]++
 		res.Obs["segments"] += rep.Obs["segments"]
+		res.Obs["holes_below_data_sent_after_close_message"] += rep.Obs["holes_below_data_sent_after_close_message"]
 		for _, f := range rep.Findings {
 			if f.Prop == "C13" {
 				res.Verdict, res.Sig, res.Detail = Violated, "C13|"+f.Sig, f.Detail+fmt.Sprintf(" (Close racing a fragmented Write, attempt %d)", a+1)
